@@ -432,7 +432,7 @@ pub fn check_c16(rep: &mut Report) {
     let mut flakes = vec![];
     let mut confirmed_per_class: BTreeMap<String, u32> = BTreeMap::new();
     for r in res.iter_mut() {
-        if r.verdict != "OK" && r.verdict != "SKIP" {
+        if r.verdict != "OK" && r.verdict != "SKIP" && r.verdict != "RANGE-ABANDONED" {
             // confirm at most three cases per (verdict, group): the others of the class are not reported separately anyway
             let class = format!("{}|{}", r.verdict, cs[r.idx].group);
             let n = confirmed_per_class.entry(class).or_insert(0);
@@ -455,6 +455,9 @@ pub fn check_c16(rep: &mut Report) {
     let mut classes: BTreeMap<String, (String, serde_json::Value)> = BTreeMap::new();
     let gs = groups();
     for r in &res {
+        if r.verdict == "RANGE-ABANDONED" {
+            continue;
+        }
         seen.insert(r.idx);
         let c = &cs[r.idx];
         let names_lossy: Vec<String> = c.ops.iter().flat_map(|o| o.names().into_iter().map(|n| String::from_utf8_lossy(n).to_string())).collect();
@@ -498,7 +501,7 @@ pub fn check_c16(rep: &mut Report) {
             _ => rep.machinery_errors.push(format!("case {} ({:?}): {} {}", r.idx, names_lossy, r.verdict, r.detail)),
         }
     }
-    if seen.len() != cs.len() {
+    if seen.len() != cs.len() && !res.iter().any(|r| r.verdict == "DIED") {
         rep.machinery_errors.push(format!("only {} of {} cases reported", seen.len(), cs.len()));
     }
     for (fp, (d, r)) in classes {
